@@ -1274,6 +1274,10 @@ def _sorted_permutation(ex, st, args, kwargs, node):
     st.assume(z3.Length(r) == z3.Length(s))
     st.assume(z3.ForAll([x], z3.Contains(r, z3.Unit(x)) == z3.Contains(s, z3.Unit(x))))
     models.seq_member_facts(st, r)
+    # ONE ground instance of "a member sits at some position", for the contract's arbitrary name (no quantified witness function)
+    p = lift(_PROBE)
+    pp = z3.Int(fresh_name("probe_pos"))
+    models.assume_theorem(st, z3.Implies(z3.Contains(r, z3.Unit(p)), z3.And(0 <= pp, pp < z3.Length(r), r[pp] == p)))
     return Val(v.ty, r)
 
 
@@ -1302,14 +1306,16 @@ contract(
         "nothing-else": f"implies(probe in {_GT}.glyphs, probe in self.glyphOrder)",
         "cache-untouched": "self._compiledGlyphs == old(self._compiledGlyphs)",
     },
+    # the same for EVERY name, and the depth order of insertion, evaluated natively on real compilers
+    bounded_ensures={
+        "all-names": f"set({_GT}.glyphs) == set(self.glyphOrder) and all({_GT}.glyphs[n] is self._compiledGlyphs[n] for n in self.glyphOrder)",
+        "bases-before-composites": f"all(self.getMaxComponentDepths().get(list({_GT}.glyphs)[k], 0) <= self.getMaxComponentDepths().get(list({_GT}.glyphs)[k + 1], 0) for k in range(len({_GT}.glyphs) - 1))",
+    },
     raises={"InvalidFontData": "depth_cycle(self)"},
     canaries={"empty-table": f"probe in self.glyphOrder and probe not in {_GT}.glyphs"},
-    ghost_vars={"seen": (BOOL, "False")},
-    ghost={"glyf[name] = ttGlyph": ["seen = seen or name == probe"]},
-    hints={"ttGlyph = ttGlyphs[name]": [
-        "name == SO[i] and SO[:i + 1] == SO[:i] + [name]",  # the processed prefix grows by exactly this name (pure sequence fact)
-        "(probe in SO[:i + 1]) == ((probe in SO[:i]) or name == probe)",
-    ]},
+    # DONE: the names stored so far (ghost)
+    ghost_vars={"DONE": (Set(STR), "set()")},
+    ghost={"glyf[name] = ttGlyph": ["DONE = DONE | {name}"]},
     locals={"ttGlyphs": Dict(STR, Ref("C02_TTGlyph"))},
     loops={
         _SORT_LOOP: Loop(
@@ -1317,11 +1323,39 @@ contract(
             invariants={
                 "table": "self.otf.get('glyf') is not None and glyf == self.otf['glyf']",
                 "order-kept": "glyf.glyphOrder == self.glyphOrder",
-                # seen: `probe` is among the names processed so far (membership in the processed PREFIX of the sorted order — no positions)
-                "seen-def": "seen == (probe in SO[:i])",
-                "stored": "implies(seen, probe in glyf.glyphs and glyf.glyphs[probe] == ttGlyphs[probe])",
-                "only": "implies(probe in glyf.glyphs, seen)",
+                "done-prefix": "all(SO[a] in DONE for a in range(i))",
+                "done-only": "all(n in self.glyphOrder for n in DONE)",
+                "stored": "implies(probe in DONE, probe in glyf.glyphs and glyf.glyphs[probe] == ttGlyphs[probe])",
+                "only": "implies(probe in glyf.glyphs, probe in DONE)",
             },
         )
     },
 )
+
+
+def _glyf_cases(rng, n):
+    from vcheck.hooks import c15_render as R
+
+    out = []
+    for k in range(n):
+        desc = R.rand_graph(rng, n_base=2, n_comp=rng.randint(0, 4), depth=3, curves=None, mixed=False)
+        desc["a"] = {"width": 500, "height": 0, "contours": [[[0, 0, "line"], [100, 0, "line"], [100, 100, "line"]]], "components": [], "anchors": []}
+        out.append({"glyphs": desc, "ufolib": ["ufoLib2", "defcon"][k % 2]})
+    return out
+
+
+def _glyf_build(d):
+    from ufo2ft.instructionCompiler import InstructionCompiler
+    from ufo2ft.outlineCompiler import OutlineTTFCompiler
+
+    f = rtlib.build_ufo({"glyphs": d["glyphs"]}, d["ufolib"])
+    comp = OutlineTTFCompiler(f)
+    comp.setupOtherTables = lambda: None  # compile() up to (not including) the glyf table: head, hmtx, maxp, ... and the glyph-record cache
+    comp.importTTX = lambda: None
+    comp.compile()
+    comp.instructionCompiler = InstructionCompiler(comp.ufo, comp.otf, autoUseMyMetrics=comp.autoUseMyMetrics)  # as setupOtherTables does
+    return {"self": comp}
+
+
+CONTRACTS["ufo2ft.outlineCompiler:OutlineTTFCompiler.setupTable_glyf"].runtime = Runtime(_glyf_cases, _glyf_build, call=lambda fn, a: fn(a["self"]))
+CLASSES["C02_TTCompiler"].views["_compiledGlyphs"] = lambda o: o._compiledGlyphs
